@@ -355,7 +355,7 @@ PROPS = {
         "timeout": {"quick": 900, "thorough": 3000},
     },
     "C19": {
-        "lean": ["Knut.Properties.C19"],
+        "lean": ["Knut.Properties.C19", "Knut.Properties.C19Registry", "Knut.FactsAgree.C19"],
         "level": "proof",
         "race": True,
         "claim": "Lean theorems over a transition-system model of cpr.Seq (any number of stages, items, stage functions with private state; a schedule is any "
@@ -436,7 +436,9 @@ PROPS = {
                  "Faithful (Spec/ImportSpec.lean). Proved for ALL record lists and field contents, for all eleven importers (swisscard2, swisscard, supercard, cumulus, postfinance, revolut2, "
                  "revolut, wise, viac, swissquote, interactivebrokers): C13_<importer> - if the importer succeeds its directives are, one for one and in order, the statement's items: one transaction per "
                  "booking row, on the row's date, whose net effect on the import account equals the row's signed amount in every commodity, with at least one booking; the carried "
-                 "balances / prices verbatim; nothing else (C13_count, C13_booking_row, C13_nothing_else, C13_no_open_close, C13_swisscard2_one_tx_per_row); the monitor's executable "
+                 "balances / prices verbatim; nothing else (C13_count, C13_booking_row, C13_nothing_else, C13_no_open_close, C13_swisscard2_one_tx_per_row); C13_<importer>_wellformed - every "
+                 "emitted directive is well-formed (at least one booking per transaction, postings in pairs, every account / commodity / @performance target a valid name for knut's registry "
+                 "and parser) whatever the free text contains: the hypothesis of the print-then-parse round trip; the monitor's executable "
                  "predicate is complete and sound for Faithful (C13_monitor_complete, C13_monitor_sound, C13_matchesB_iff). Kernel-checked witnesses of the deviations: "
                  "wise_conversion_two_transactions, swissquote_forex_pair_one_transaction, swissquote_sale_without_proceeds_is_booked_as_purchase, postfinance_echo_nonempty. "
                  "NOT mechanised: the text-level clause (output parses, is accepted and re-printed unchanged once the accounts are opened; stays valid for arbitrary free text) - it "
